@@ -337,29 +337,34 @@ class C16(CheckBase):
         cmd = case['cmd']
         files = [(v, f) for v, f in s.all_files() if dfswork.safe_for_cmdline(f)]
         g = []
+        # drive numbers are decimal however they are written: a quarter of the commands spell theirs with leading zeros
+        dnum = d
+        dsp = str(d)
+        if case['tpick'] % 4 == 2:
+            dsp = '%0*d' % (len(str(dnum)) + 1 + (case['tpick'] // 4) % 2, dnum)
         if cmd in ('type', 'type-ctx') and not files:
             cmd = 'show-titles'
         if cmd == 'show-titles':
-            argv = ['show-titles', str(d)]
+            argv = ['show-titles', dsp]
         elif cmd == 'cat':
-            argv = ['cat', '%d%s' % (d, lab)]
+            argv = ['cat', '%s%s' % (dsp, lab)]
         elif cmd == 'cat-opt':
-            g = ['--drive', '%d%s' % (d, lab)]
+            g = ['--drive', '%s%s' % (dsp, lab)]
             argv = ['cat']
         elif cmd == 'type':
             v, f = files[case['tpick'] % len(files)]
-            argv = ['type', '--binary', dfswork.fsp(v, f, d)]
+            argv = ['type', '--binary', dfswork.fsp(v, f, dsp)]
         elif cmd == 'type-ctx':
             v, f = files[case['tpick'] % len(files)]
-            g = ['--drive', '%d%s' % (d, v.label or '')]
-            argv = ['type', '--binary', dfswork.fsp(v, f, d, 'dir')]
+            g = ['--drive', '%s%s' % (dsp, v.label or '')]
+            argv = ['type', '--binary', dfswork.fsp(v, f, dsp, 'dir')]
         else:
             t = case['tpick'] % s.tracks
             sec = (case['tpick'] // 7) % s.spt
-            argv = ['dump-sector', str(d), str(t), str(sec)]
+            argv = ['dump-sector', dsp, str(t), str(sec)]
         if cmd == 'type' and case['tpick'] % 4 == 1:
             # an explicit :k. prefix in the name wins over the --drive option, whatever drive that names
-            g = ['--drive', str(d + 1 + (case['tpick'] // 4) % 3)] + g
+            g = ['--drive', str(dnum + 1 + (case['tpick'] // 4) % 3)] + g
         if case['tpick'] % 3 == 0:
             # --ui after (or before) --drive: a presentation option must not disturb the addressing
             ui = ['--ui', ['acorn', 'watford', 'opus'][(case['tpick'] // 3) % 3]]
